@@ -49,21 +49,32 @@ impl HttpInfo {
         let n = name.to_ascii_lowercase();
         self.headers.iter().filter(|(k, _)| k.to_ascii_lowercase() == n).count()
     }
-    pub fn to_json(&self) -> Value {
+    /// Trace form: ids as the run's abstract numbers (-1 header absent, -2 not a UUID), whether the
+    /// id text is the canonical hyphenated lower-case form, header multiplicities.
+    pub fn to_json(&self, namer: &mut crate::base::Namer, btok: i64) -> Value {
+        let mut idf = |h: &str| -> (i64, bool) {
+            match self.get(h) {
+                None => (-1, false),
+                Some(t) => match Uuid::parse_str(t) {
+                    Ok(u) => (namer.name(u), u.to_string() == t),
+                    Err(_) => (-2, false),
+                },
+            }
+        };
+        let (xv, xvc) = idf("x-version-id");
+        let (xp, xpc) = idf("x-parent-version-id");
         json!({
             "status": self.status,
-            "xv": self.get("x-version-id").unwrap_or(""),
-            "xp": self.get("x-parent-version-id").unwrap_or(""),
+            "xv": xv, "xvc": xvc, "xp": xp, "xpc": xpc,
             "xs": self.get("x-snapshot-request").unwrap_or(""),
             "ct": self.get("content-type").unwrap_or(""),
             "cc": self.get("cache-control").unwrap_or(""),
+            "ccns": self.headers.iter().filter(|(k, _)| k.eq_ignore_ascii_case("cache-control"))
+                .any(|(_, v)| v.split(',').any(|d| d.trim().eq_ignore_ascii_case("no-store"))),
             "nxv": self.count("x-version-id"), "nxp": self.count("x-parent-version-id"),
-            "nxs": self.count("x-snapshot-request"),
-            "blen": self.body_len,
+            "nxs": self.count("x-snapshot-request"), "ncc": self.count("cache-control"),
+            "blen": self.body_len, "btok": btok,
         })
-    }
-    pub fn none_json() -> Value {
-        json!({"status": 0, "xv": "", "xp": "", "xs": "", "ct": "", "cc": "", "nxv": 0, "nxp": 0, "nxs": 0, "blen": 0})
     }
 }
 
@@ -73,6 +84,10 @@ pub trait Driver {
     fn add_snapshot(&mut self, c: Uuid, v: Uuid, body: Vec<u8>) -> (Out, Option<HttpInfo>);
     fn get_snapshot(&mut self, c: Uuid) -> (Out, Option<HttpInfo>);
     fn level(&self) -> &'static str;
+    /// send a fully spelled-out HTTP request (HTTP drivers only)
+    fn raw(&mut self, _r: &RawReq) -> Option<Result<(HttpInfo, Vec<u8>), String>> {
+        None
+    }
 }
 
 pub fn urg_name(u: SnapshotUrgency) -> String {
@@ -364,5 +379,8 @@ where
     }
     fn level(&self) -> &'static str {
         "http"
+    }
+    fn raw(&mut self, r: &RawReq) -> Option<Result<(HttpInfo, Vec<u8>), String>> {
+        Some(self.call(r))
     }
 }
